@@ -150,20 +150,20 @@ def check_feasible_l1(case, rec):
 def search_feasible_l1(ctx):
     from props import c02
 
-    ctx.given(c02.l1_case().map(lambda c: dict(c, mode="inside", cont=False)), ctx.n(6000, 300_000))
+    ctx.given(c02.l1_case().map(lambda c: dict(c, mode="inside", cont=False)), ctx.n(6000, 120_000))
 
 
 def search_l2(ctx):
-    gs.run_stratified(ctx, ctx.total(96, 1500), outcomes=["inside", "inside", "edge_small", "edge_large", "tiny", "huge"])
+    gs.run_stratified(ctx, ctx.total(96, 800), outcomes=["inside", "inside", "edge_small", "edge_large", "tiny", "huge"])
 
 
 def search_l3(ctx):
     ctx.given_shared(gs.scenario(methods=["NEARSQUARE", "RECTANGLE", "BIRECTANGLE", "BIZONEDRECTANGLE", "BIRECTANGLECONSTRAINED"],
-                                 months=st.sampled_from([12, 60])), ctx.total(8, 64))
+                                 months=st.sampled_from([12, 60])), ctx.total(8, 32))
 
 
 def search_size(ctx):
-    ctx.given(build.ghe_case(months=st.sampled_from([12, 60, 240]), max_n=200), ctx.n(150, 3000), shrink=ctx.tier != "quick")
+    ctx.given(build.ghe_case(months=st.sampled_from([12, 60, 240]), max_n=200), ctx.n(150, 1500), shrink=ctx.tier != "quick")
 
 
 SUBS = [
